@@ -7,12 +7,12 @@
 (***************************************************************************)
 EXTENDS Naturals, Sequences, FiniteSets, TLC, Json, IOUtils, TLCExt
 Rec == ndJsonDeserialize(IOEnv.TRACE)
-VARIABLES l, bad
-tvars == <<l, bad>>
-Base == Rec[1]
+VARIABLES l, bad, base
+tvars == <<l, bad, base>>
+\* the reference program of the group a line belongs to: the latest line with steps = 0 (the first line is one)
 Contains(s, sub) == \E i \in 1..(Len(s) - Len(sub) + 1) : SubSeq(s, i, i + Len(sub) - 1) = sub
 
-Complaints(r) ==
+Complaints(r, Base) ==
   IF r.expected = "diagnostic"
   THEN (IF r.outcome = "code" THEN {"unresolvable-reference-compiled-to-code"}
         ELSE IF r.outcome # "diags" THEN {"compile-" \o r.outcome}
@@ -23,9 +23,10 @@ Complaints(r) ==
 
 Observe ==
   /\ l <= Len(Rec)
-  /\ bad' = Complaints(Rec[l])
+  /\ base' = IF Rec[l].steps = 0 THEN l ELSE base
+  /\ bad' = Complaints(Rec[l], Rec[base'])
   /\ l' = l + 1
-TraceInit == l = 1 /\ bad = {}
+TraceInit == l = 1 /\ bad = {} /\ base = 1
 TraceSpec == TraceInit /\ [][Observe]_tvars
 Accepted ==
   LET consumed == TLCGet("stats").diameter - 1 IN
